@@ -37,6 +37,10 @@ func verifHexVal(c byte) int {
 	return 0
 }
 
+func verifIsHex(c byte) bool {
+	return c >= '0' && c <= '9' || c >= 'a' && c <= 'f' || c >= 'A' && c <= 'F'
+}
+
 // verifDecodeString is the reference decoder of a double quoted string body (escape table of the README):
 // \n \r \t \a \b \f \v, \xHH, \uHHHH, \UHHHHHHHH, any other escaped byte stands for itself. Bytes past the end read as 0.
 func verifDecodeString(body []byte) string {
@@ -70,28 +74,42 @@ func verifDecodeString(body []byte) string {
 			out = append(out, '\f')
 		case 'v':
 			out = append(out, '\v')
-		case 'x':
-			out = append(out, byte(verifHexVal(at(i+1))<<4|verifHexVal(at(i+2))))
-			i += 2
-		case 'u':
-			r := 0
-			for k := 1; k <= 4; k++ {
-				r = r<<4 | verifHexVal(at(i+k))
+		case 'x', 'u', 'U':
+			// the hex digits that follow, at most 2 / 4 / 8 of them: an escape never swallows a non-digit
+			max := map[byte]int{'x': 2, 'u': 4, 'U': 8}[e]
+			r, k := 0, 0
+			for k < max && verifIsHex(at(i+1+k)) {
+				r = r<<4 | verifHexVal(at(i+1+k))
+				k++
 			}
-			out = append(out, []byte(string(rune(r)))...)
-			i += 4
-		case 'U':
-			r := 0
-			for k := 1; k <= 8; k++ {
-				r = r<<4 | verifHexVal(at(i+k))
+			i += k
+			if e == 'x' {
+				out = append(out, byte(r))
+			} else {
+				out = append(out, []byte(string(rune(int32(r))))...)
 			}
-			out = append(out, []byte(string(rune(int32(r))))...)
-			i += 8
 		default:
 			out = append(out, e)
 		}
 	}
 	return string(out)
+}
+
+// verifStringTerminated scans for the closing quote of the string starting at in[w] (reference: in a double
+// quoted string a backslash protects the next byte, whatever it is; a NUL byte ends the scan - known finding).
+func verifStringTerminated(in []byte, w int) bool {
+	q := in[w]
+	for i := w + 1; i < len(in); i++ {
+		switch {
+		case in[i] == 0:
+			return false
+		case q == '"' && in[i] == '\\':
+			i++
+		case in[i] == q:
+			return true
+		}
+	}
+	return false
 }
 
 // verifCheckToken checks one token against the bytes in[w:end) it claims to span. Returns false when the
@@ -111,6 +129,8 @@ func verifCheckToken(l *Lexer, in []byte, w int, tok *token.Token) bool {
 					vAssert(false, "end-marker-before-end-of-input/nul-byte")
 				}
 				vAssert(end >= n, "end-marker-before-end-of-input/unterminated-string-consumes-rest")
+				// and it is unterminated by an independent scan: a backslash protects exactly the next byte
+				vAssert(!verifStringTerminated(in, w), "string/terminated-string-lexed-as-unterminated")
 			}
 		}
 		return false
